@@ -17,6 +17,8 @@ def unusable_reason(version, node):
     without its structure - a table defect the callers report), 'no-MSH'"""
     if not node.ok:
         return 'missing-reference:%s' % node.name
+    if node.name != node.name.upper():
+        return 'template-structure-name'       # e.g. QBP_Qnn / RSP_Znn: placeholders of the standard, not message types
     if tables.has_choice_or_pseudo(node):
         return 'choice-or-pseudo-segment'
     segs = tables.segments(version)
